@@ -8,13 +8,14 @@ import (
 
 //verif:harness VerifC07_Graph quick.maxpaths=60000 thorough.maxpaths=400000 timeout=3000 steps=60000000 depth=400
 //verif:harness VerifC07_NoLayout quick.maxpaths=20000 thorough.maxpaths=100000 timeout=1800
+//verif:harness VerifC07_FilesChange quick.maxpaths=20000 thorough.maxpaths=100000 timeout=1800
 
 // layout files of the universe; every layout prints a marker, the previous
 // result (content), a page front-matter key (pk) and a Fill key (fk).
 var zzC07Layouts = []string{"a.vuego", "layouts/a.vuego", "layouts/b.vuego", "layouts/base.vuego", "dir/a.vuego"}
 
 // values the `layout` key of a file may take
-var zzC07LayoutVals = []string{"", "a", "b", "a.vuego", "base", "missing"}
+var zzC07LayoutVals = []string{"", "a", "b", "a.vuego", "base", "missing", "../p"}
 
 func zzC07Marker(file string) string {
 	return strings.ReplaceAll(strings.ReplaceAll(file, "/", "_"), ".vuego", "")
@@ -45,6 +46,11 @@ func zzDir(p string) string {
 }
 
 func zzJoin(dir, name string) string {
+	// "x/../y" is "y"; "../y" from the top level stays as it is (outside the universe)
+	for strings.HasPrefix(name, "../") && dir != "." && dir != "" {
+		name = name[3:]
+		dir = zzDir(dir)
+	}
 	if dir == "." || dir == "" {
 		return name
 	}
@@ -67,6 +73,7 @@ func VerifC07_Graph() {
 		universe[f] = true
 	}
 	// the page lives at top level or in dir/
+	// the page lives at top level or in dir/
 	page := []string{"p.vuego", "dir/p.vuego"}[zzChoice("pagedir", 2)]
 	pl := zzC07LayoutVals[zzChoice("pagelayout", len(zzC07LayoutVals))]
 	layoutOf[page] = pl
@@ -75,7 +82,7 @@ func VerifC07_Graph() {
 		fm += "layout: " + pl + "\n"
 	}
 	fm += "---\n"
-	files[page] = fm + `<p>PAGE:{{ pk }}:{{ fk }}</p>`
+	files[page] = fm + `<p class="PG">PAGE:{{ pk }}:{{ fk }}</p>`
 
 	decided := map[string]bool{}
 	exists := func(p string) bool {
@@ -174,8 +181,15 @@ func VerifC07_Graph() {
 			got = append(got, out[p+7:p+7+q])
 		}
 	}
+	// a layout prints its marker around the previous result; the page prints
+	// its own text only, so what is visible is the chain from the outermost
+	// file inwards up to the first rendering of the page met on the way
 	var want []string
-	for i := len(chain) - 1; i >= 1; i-- {
+	for i := len(chain) - 1; i >= 0; i-- {
+		if chain[i] == page {
+			want = append(want, "PG")
+			break
+		}
 		want = append(want, zzC07Marker(chain[i]))
 	}
 	zzNote("want", strings.Join(want, ","))
@@ -183,7 +197,13 @@ func VerifC07_Graph() {
 	zzAssert(strings.Join(got, ",") == strings.Join(want, ","), "C07.graph.nesting-order")
 	zzAssert(strings.Count(out, "PAGE:PK:FK") == 1, "C07.graph.page-rendered-once")
 	// page front-matter and Fill data visible in every layout of the chain
-	for i := 1; i < len(chain); i++ {
+	lastPage := 0
+	for i := range chain {
+		if chain[i] == page {
+			lastPage = i
+		}
+	}
+	for i := lastPage + 1; i < len(chain); i++ {
 		m := zzC07Marker(chain[i])
 		if ownKeys[chain[i]] {
 			zzAssert(strings.Contains(out, m+":OWN-"+m+":OWNF-"+m), "C07.graph.layout-front-matter-wins-inside-the-layout")
@@ -234,4 +254,58 @@ func VerifC07_NoLayout() {
 	wantBase := pageForm != 5 && base
 	zzAssert(strings.Contains(out, `class="a"`) == wantA, "C07.nolayout.named-layout")
 	zzAssert(strings.Contains(out, `class="base"`) == wantBase, "C07.nolayout.base-iff-page-names-none")
+}
+
+// VerifC07_FilesChange: which layout applies is decided by the files that
+// exist at the time of the render: after a layout file appears or disappears
+// a long-lived engine resolves the chain like a fresh engine does (relative
+// before layouts/, base only when it exists).
+func VerifC07_FilesChange() {
+	names := []string{"pages/main.vuego", "layouts/main.vuego", "layouts/base.vuego"}
+	files := map[string]string{}
+	named := zzBool("pagenameslayout")
+	if named {
+		files["pages/p.vuego"] = "---\nlayout: main\n---\n<p>PAGE</p>"
+	} else {
+		files["pages/p.vuego"] = "<p>PAGE</p>"
+	}
+	layout := func(n string) string {
+		return `<div class="` + zzC07Marker(n) + `"><span v-html="content"></span></div>`
+	}
+	for _, n := range names {
+		if zzBool("exists") {
+			files[n] = layout(n)
+		}
+	}
+	fsys := newZZFS(files)
+	for n := range files {
+		fsys.mtime[n] = 3
+	}
+	long := NewFS(fsys)
+	render := func(t Template) (string, bool) {
+		w := &zzWriter{limit: 1 << 20}
+		err := t.RenderFile(contextBackground(), w, "pages/p.vuego")
+		return string(w.got), err != nil
+	}
+	steps := zzBound("changes", 1, 2)
+	_, _ = render(long)
+	for s := 0; s < steps; s++ {
+		// one layout file appears or disappears
+		n := names[zzChoice("file", len(names))]
+		if _, ok := fsys.files[n]; ok {
+			delete(fsys.files, n)
+		} else {
+			fsys.files[n] = layout(n)
+			fsys.mtime[n] = int64(4 + s)
+		}
+		got, gotFailed := render(long)
+		want, wantFailed := render(NewFS(fsys))
+		zzNote("changed", n)
+		zzNote("want", want)
+		zzNote("got", got)
+		zzAssert(gotFailed == wantFailed, "C07.fileschange.error-differs-from-fresh-engine")
+		if !wantFailed {
+			zzAssert(got == want, "C07.fileschange.chain-differs-from-fresh-engine")
+		}
+	}
 }
